@@ -5,6 +5,8 @@ ALLCONF = ['default', 'asm', 'int128struct', 'int64', 'verify']
 # how a configuration name maps to a harness build / run
 CONFIG_RUN = {
     'default': {}, 'asm': {}, 'int128struct': {}, 'int64': {}, 'verify': {}, 'o2': {},
+    'memcheck': {'build': 'o1plain', 'sanitize': False, 'wrapper': ['valgrind', '-q', '--error-exitcode=96'], 'sample': 400,
+                 'prefer': ['corpus', 'rangeproof_rewind', 'rangeproof_verify', 'surj_verify', 'wl_verify', 'bppp_verify', 'adaptor_recover', 'sig_parse_der']},
     'tsan': {'build': 'tsan', 'sanitize': False, 'only': ['ctx_threads'], 'env': {'TSAN_OPTIONS': 'halt_on_error=1:exitcode=98'}},
 }
 
@@ -23,6 +25,9 @@ PROPS = {
             'assumptions': ['x86-64 assembly, safegcd modinv and ecmult internals are tied by correspondence only']},
     'C06': {'gens': ['c06'], 'translate': ['K:ct'], 'ct_valgrind': True, 'configs': C(['default'], ['default', 'verify']),
             'assumptions': ['compiler and CPU behaviour are outside the Lean model; valgrind observes the executed paths of the built binaries only']},
+    'C07': {'gens': ['c07'], 'configs': C(['default', 'int64', 'memcheck'], ['default', 'asm', 'int128struct', 'int64', 'verify', 'memcheck']),
+            'corpus_from': ['C10', 'C11'],
+            'assumptions': ['memory safety of the compiled code is observed by ASan/UBSan/LeakSanitizer/valgrind on the generated inputs only']},
     'C08': {'gens': ['c08'], 'configs': C(['default', 'int64'])},
     'C09': {'gens': ['c09'], 'configs': C(['default', 'int64'])},
     'C10': {'gens': ['c10'], 'configs': C(['default', 'int64'])},
